@@ -494,6 +494,40 @@ theorem handles_step (s : AState) (ns : Bytes) (r : OpenRep) (h : getOpen s ns =
     simp only [step, closeR, h, h1]
     exact getOpen_delOpen_same s ns
 
+/-- **Removal is refused exactly while another handle holds the document**: with two or more
+handles the drop is answered `NotClosed`, releases one handle and leaves every table as it was; with
+exactly one handle it closes the document and removes it. -/
+theorem drop_refused_iff_other_handle (s : AState) (ns : Bytes) (r : OpenRep) (h : getOpen s ns = some r)
+    (inv : OpenInv s) :
+    (r.handles ≥ 2 → (step s (.dropReplica ns)).2 = .errNotClosed ∧ (step s (.dropReplica ns)).1.t = s.t) ∧
+    (r.handles = 1 → (step s (.dropReplica ns)).2 = .ok ∧
+        (step s (.dropReplica ns)).1.t = Tables.removeReplica s.t ns ∧
+        getOpen (step s (.dropReplica ns)).1 ns = none) := by
+  obtain ⟨_, hmem, _⟩ := inv.open_ok ns r h
+  constructor
+  · intro h2
+    have hne : ¬ (r.handles - 1 = 0) := by omega
+    have hc : closeR s ns = (setOpen s ns { r with handles := r.handles - 1 }, false) := by
+      simp only [closeR, h, hne, if_false]
+    have hso : (setOpen s ns { r with handles := r.handles - 1 }).storeOpen = s.storeOpen := rfl
+    simp only [step, hc]
+    have : (setOpen s ns { r with handles := r.handles - 1 }).storeOpen.contains ns = true := by
+      rw [hso]; exact List.contains_iff_mem.mpr hmem
+    simp only [this, if_true]
+    exact ⟨trivial, rfl⟩
+  · intro h1
+    have hc : closeR s ns = ({ delOpen s ns with storeOpen := s.storeOpen.filter (· != ns) }, true) := by
+      simp only [closeR, h, h1]; rfl
+    simp only [step, hc]
+    have : ((s.storeOpen.filter (· != ns)).contains ns) = false := by
+      apply Bool.eq_false_iff.mpr
+      intro hcon
+      have := List.contains_iff_mem.mp hcon
+      simp at this
+    simp only [this]
+    refine ⟨rfl, rfl, ?_⟩
+    exact getOpen_delOpen_same s ns
+
 /-- non-vacuity: the corpus case "a refused drop releases a handle" -/
 example :
     let t : Tables.T := (Tables.importNamespace {} [1] 1 [9]).1
